@@ -165,6 +165,7 @@ func serveScenario(v6 bool, reads [][]byte) (outs [][]byte) {
 		}
 		_ = order
 		synctest.Wait() // the loop has consumed the script (or returned)
+		lastConsumed = conn.pos
 		didExit := false
 		select {
 		case <-exited:
@@ -198,6 +199,9 @@ func serveScenario(v6 bool, reads [][]byte) (outs [][]byte) {
 
 // set when Serve panicked in the last scenario
 var servePanic string
+
+// how many scripted reads the loop had taken when every goroutine was at rest and no handler had finished yet
+var lastConsumed int
 
 func firstN(b []byte, n int) []byte {
 	if len(b) > n {
@@ -242,10 +246,14 @@ func genC14(r *Run) {
 			entry = eServer6
 		}
 		cnt := r.Rng.Intn(r.Pick(4, 12, 40, 200))
+		allValid := i < 4 // 200 decodable datagrams whose handlers are all still running when the last one is read
+		if allValid {
+			cnt = 200
+		}
 		var reads [][]byte
 		valid := 0
 		closeAt := -1
-		if r.Rng.Intn(3) == 0 && cnt > 0 {
+		if r.Rng.Intn(3) == 0 && cnt > 0 && !allValid {
 			closeAt = r.Rng.Intn(cnt + 1)
 		}
 		expectInv := 0
@@ -266,7 +274,11 @@ func genC14(r *Run) {
 			port := r.Pick(68, 67, 0, 546, 65535)
 			hdr := []byte{0, pk, byte(port >> 8), byte(port)}
 			var payload []byte
-			switch r.Rng.Intn(6) {
+			kindOfRead := r.Rng.Intn(6)
+			if allValid {
+				kindOfRead = 5
+			}
+			switch kindOfRead {
 			case 0: // undecodable
 				payload = r.Bytes(r.Rng.Intn(60))
 				if v6 && len(payload) >= 4 {
@@ -328,6 +340,14 @@ func genC14(r *Run) {
 		outs := serveScenario(v6, reads)
 		evals++
 		got := (len(outs) - 1) / 3
+		wantConsumed := len(reads)
+		if n := len(reads); n > 0 && len(reads[n-1]) == 2 && reads[n-1][0] == 1 && reads[n-1][1] == 2 {
+			wantConsumed-- // the server was closed while the previous datagram was returned: the error read is never taken
+		}
+		if lastConsumed < wantConsumed && servePanic == "" {
+			r.Fail("c14-loop-stalled-by-running-handlers", trunc(Case{entry, reads}.Line(), 800),
+				fmt.Sprintf("with all handlers still running the loop had read only %d of %d datagrams: dispatch must not wait for earlier handlers", lastConsumed, wantConsumed))
+		}
 		if outs[len(outs)-1][0] == 9 {
 			r.Fail("c14-serve-panics", trunc(Case{entry, reads}.Line(), 800), "the serving loop crashed: "+servePanic)
 		}
